@@ -199,3 +199,89 @@ theorem C18_residual (ms : List α) (chosen : List Nat) (h : ∀ c ∈ chosen, c
   C18_swapRemove ms _ (sortDedupDesc_desc ms.length chosen h)
 
 end EgglogVerif.Scheduler
+
+namespace EgglogVerif.Scheduler
+variable {α : Type}
+
+/-- erasing descending positions: what is erased plus what is left is what there was -/
+theorem eraseIdx_conserve : ∀ (cs : List Nat) (b : Nat) (l : List α), DescBelow b cs → b ≤ l.length →
+    l.Perm (cs.filterMap (l[·]?) ++ cs.foldl List.eraseIdx l) := by
+  intro cs
+  induction cs with
+  | nil => intro b l _ _; exact List.Perm.refl _
+  | cons c cs ih =>
+    intro b l hd hb
+    obtain ⟨hcb, hrest⟩ := hd
+    have hc : c < l.length := by omega
+    simp only [List.foldl_cons, List.filterMap_cons, List.getElem?_eq_getElem hc]
+    -- positions below `c` read the same in `l.eraseIdx c`
+    have hsame : cs.filterMap (l[·]?) = cs.filterMap ((l.eraseIdx c)[·]?) := by
+      have : ∀ (cs : List Nat) (b' : Nat), DescBelow b' cs → b' ≤ c →
+          cs.filterMap (l[·]?) = cs.filterMap ((l.eraseIdx c)[·]?) := by
+        intro cs
+        induction cs with
+        | nil => intro _ _ _; rfl
+        | cons x xs ihx =>
+          intro b' hd' hb'
+          obtain ⟨hx, hxs⟩ := hd'
+          simp only [List.filterMap_cons]
+          rw [List.getElem?_eraseIdx, if_pos (by omega : x < c), ihx x hxs (by omega)]
+      exact this cs c hrest (Nat.le_refl _)
+    have hlen : c ≤ (l.eraseIdx c).length := by rw [List.length_eraseIdx, if_pos hc]; omega
+    have ih' := ih c (l.eraseIdx c) hrest hlen
+    rw [hsame]
+    have hsplit : l.Perm (l[c] :: l.eraseIdx c) := by
+      have e1 : l = List.take c l ++ l[c] :: List.drop (c + 1) l := by
+        conv => lhs; rw [← List.take_append_drop c l]
+        rw [List.drop_eq_getElem_cons hc]
+      rw [List.eraseIdx_eq_take_drop_succ]
+      conv => lhs; rw [e1]
+      exact List.perm_middle
+    exact hsplit.trans (List.Perm.cons _ ih')
+
+/-- **one step conserves the matches**: what was offered = what fired + what stays pending -/
+theorem C18_step_conserves (pending new : List α) (chosen : List Nat) (h : ∀ c ∈ chosen, c < (pending ++ new).length) :
+    (pending ++ new).Perm ((offerStep pending new chosen).1 ++ (offerStep pending new chosen).2) := by
+  unfold offerStep fired
+  have hd := sortDedupDesc_desc (pending ++ new).length chosen h
+  have h1 := eraseIdx_conserve (sortDedupDesc chosen) _ (pending ++ new) hd (Nat.le_refl _)
+  have h2 := C18_residual (pending ++ new) chosen h
+  exact h1.trans (List.Perm.append_left _ h2.symm)
+
+/-- every index a scheduler chooses is among what it was offered, at every step of a history -/
+def ValidRun : List α → List (List α × List Nat) → Prop
+  | _, [] => True
+  | pending, (new, chosen) :: rest =>
+    (∀ c ∈ chosen, c < (pending ++ new).length) ∧ ValidRun (offerStep pending new chosen).2 rest
+
+/-- **C18 over time**: for every history of scheduler steps — any newly found matches, any choices —
+every match ever found has either fired exactly once or is still pending: the matches found, as a
+multiset, are the matches fired plus the matches pending.  None is lost, none fires twice. -/
+theorem C18_offer : ∀ (steps : List (List α × List Nat)) (pending : List α), ValidRun pending steps →
+    (pending ++ (steps.map (·.1)).flatten).Perm ((offerRun pending steps).1 ++ (offerRun pending steps).2) := by
+  intro steps
+  induction steps with
+  | nil => intro pending _; simp [offerRun]
+  | cons st rest ih =>
+    intro pending hv
+    obtain ⟨new, chosen⟩ := st
+    obtain ⟨hc, hrest⟩ := hv
+    simp only [offerRun, List.map_cons, List.flatten_cons]
+    have h1 := C18_step_conserves pending new chosen hc
+    have h2 := ih (offerStep pending new chosen).2 hrest
+    -- pending ++ new ++ later ~ fired ++ (pending' ++ later) ~ fired ++ (firedLater ++ pendingFinal)
+    have e : (pending ++ (new ++ (rest.map (·.1)).flatten)) = (pending ++ new) ++ (rest.map (·.1)).flatten := by simp
+    rw [e]
+    refine (List.Perm.append_right _ h1).trans ?_
+    rw [List.append_assoc, List.append_assoc]
+    exact List.Perm.append_left _ h2
+
+/-- from an empty start -/
+theorem C18_offer_fresh (steps : List (List α × List Nat)) (hv : ValidRun ([] : List α) steps) :
+    ((steps.map (·.1)).flatten).Perm ((offerRun [] steps).1 ++ (offerRun [] steps).2) := by
+  simpa using C18_offer steps [] hv
+
+/-- a scheduler that lets everything through leaves nothing pending (non-vacuity, and the built-in behaviour) -/
+example : offerRun ([] : List Nat) [([10, 11, 12], [2, 0, 0]), ([13], [0, 1])] = ([12, 10, 13, 11], []) := by decide
+
+end EgglogVerif.Scheduler
